@@ -912,6 +912,7 @@ int main(int argc, char **argv)
 	setvbuf(stdout, NULL, _IOLBF, 0);
 	__sanitizer_set_death_callback(flush_on_death);
 	signal(SIGPIPE, SIG_IGN);
+	alarm(4);	/* a scenario takes milliseconds; a library that loops forever is killed (SIGALRM) instead of hanging the check */
 	iv_set_fatal_msg_handler(fatal_handler);
 
 	while (fgets(line, sizeof(line), f) != NULL) {
